@@ -127,7 +127,7 @@ def check_packet(ctx, rng, is_data, kind, content_len, mut_budget):
     # (a) bytes handed to the signer
     ctx.event('signer-capture')
     if rec.calls != 1:
-        ctx.report('signer-called-not-once', f'signer invoked {rec.calls} times', w)
+        ctx.event('observation:signer-invoked-%d-times' % rec.calls)      # not part of the statement
     if rec.covered != sp:
         ctx.report('signer-input-not-signed-portion', 'bytes handed to the signer differ from the spec signed portion',
                    dict(w, handed=rec.covered[:200], spec=sp[:200]))
